@@ -498,17 +498,24 @@ class OscScore():
         # Process time in seconds to store in the score and
         # support sub-bundles relative time like _build_bundle.
         # _check_subtime is done by _build_bundle before calling this method.
-        # The result is a new list, the lists received are the user's.
+        # The result is a new list, the lists received are the user's
+        # (who can change and send them again).
         res = [self._get_logical_time(send_time, bndl[0])]
         for element in bndl[1:]:
             if isinstance(element[0], (int, float, type(None))):
                 element = self._process_bndl_time(send_time, element)
-            elif not isinstance(element[0], str):
+            elif isinstance(element[0], str):
+                element = self._copy_msg(element)
+            else:
                 raise ValueError(
                     'elements within bundles must be valid '
                     f'OSC messages or bundles: {element}')
             res.append(element)
         return res
+
+    @classmethod
+    def _copy_msg(cls, msg):
+        return [cls._copy_msg(x) if isinstance(x, list) else x for x in msg]
 
     def _get_logical_time(self, send_time, time):
         # Same as OscNrtInterface._get_timetag but in logical time.
